@@ -695,3 +695,46 @@ int bitfield_bad_helper(ctl_bits_t* d, int n, int w) {
     d->pos += need;
     return 0;
 }
+
+/* ---- R44 wrap sum (rules/wrapsum.py) */
+typedef struct { const uint8_t* data; size_t size; size_t pos; } ctl_wrd_t;
+static int ctl_wrd_has(const ctl_wrd_t* r, size_t n) { return r->pos + n <= r->size; }
+static int ctl_wrd_has2(const ctl_wrd_t* r, size_t n) { return ctl_wrd_has(r, n); }
+uint64_t ctl_read_varint64(ctl_wrd_t* r);
+const uint8_t* wrapsum_bad(ctl_wrd_t* r, int32_t* len_out) {
+    uint64_t len = ctl_read_varint64(r);
+    if (!ctl_wrd_has2(r, len)) return 0;              /* len = 2^64 - pos passes */
+    *len_out = (int32_t)len;
+    const uint8_t* p = r->data + r->pos;
+    r->pos += len;
+    return p;
+}
+const uint8_t* wrapsum_good(ctl_wrd_t* r, int32_t* len_out) {
+    uint64_t len = ctl_read_varint64(r);
+    if (len > 0x7fffffffu) return 0;
+    if (!ctl_wrd_has2(r, len)) return 0;
+    *len_out = (int32_t)len;
+    const uint8_t* p = r->data + r->pos;
+    r->pos += len;
+    return p;
+}
+
+/* ---- R45 borrowed input (rules/borrowed.py) */
+typedef struct { const uint8_t* data; size_t size; size_t pos; } ctl_brd_t;
+typedef struct { uint8_t* min_value; int32_t min_len; } ctl_meta_t;
+void* ctl_arena_dup(void* arena, const void* p, size_t n);
+static const uint8_t* ctl_peek(const ctl_brd_t* r) { return r->data + r->pos; }
+static const uint8_t* ctl_read_bin(ctl_brd_t* r, int32_t* len) { const uint8_t* p = ctl_peek(r); *len = (int32_t)p[0]; r->pos += 1 + (size_t)p[0]; return p + 1; }
+static uint8_t* ctl_bindup_good(void* arena, ctl_brd_t* r, int32_t* len) {
+    const uint8_t* d = ctl_read_bin(r, len);
+    if (!d || *len == 0) return 0;
+    return ctl_arena_dup(arena, d, (size_t)*len);
+}
+static uint8_t* ctl_bindup_bad(void* arena, ctl_brd_t* r, int32_t* len) {
+    const uint8_t* d = ctl_read_bin(r, len);
+    if (!d || *len == 0) return 0;
+    if (*len > 16) return (uint8_t*)d;                /* long values referenced in place */
+    return ctl_arena_dup(arena, d, (size_t)*len);
+}
+void borrowed_good(void* arena, ctl_brd_t* r, ctl_meta_t* m) { m->min_value = ctl_bindup_good(arena, r, &m->min_len); }
+void borrowed_bad(void* arena, ctl_brd_t* r, ctl_meta_t* m) { m->min_value = ctl_bindup_bad(arena, r, &m->min_len); }
